@@ -212,6 +212,9 @@ func init() {
 						r.Sample(map[string]interface{}{"program": progDesc(base, m), "grits": ga, "reference": v.Kind + " " + v.Reason})
 					}
 					if ga && !ra && v.Reason == "ill-formed-type" && acceptsWithoutAnnBeforeShift(m.P) {
+						if id == "C05" {
+							continue // not a substructural matter
+						}
 						viol(r, "annotation-before-shift-ignored", fmt.Sprintf("%s: accepted although a head annotation contradicts (or is not a mode and precedes) a shift (%s)", progDesc(base, m), v.Detail), text, nil)
 					} else if ga && !ra && only(v) {
 						viol(r, "false accept: "+v.Reason, fmt.Sprintf("%s: accepted, but the reference system rejects it (%s: %s)", progDesc(base, m), v.Reason, v.Detail), text, nil)
